@@ -1,6 +1,6 @@
 //! Scenario `uni`: the five Uni channels with hand-driven stream tasks under the baton scheduler.
 //!
-//!   uni kind=matomic|mfullsync|mcrossbeam|zatomic|zfullsync sub=flow|cancel|fine|susp seed=<s> runs=<r> trace=<f> replay_dir=<d>
+//!   uni kind=matomic|mfullsync|mcrossbeam|zatomic|zfullsync sub=flow|cancel|fine|susp|mid seed=<s> runs=<r> trace=<f> replay_dir=<d>
 //!
 //! * `flow`  : 1-3 producers (send / send_with / send_with_async / try_send_reserved) + 1..MAX_STREAMS stream tasks that
 //!             poll, park when answered `Pending`, and are polled again when their waker fired (sometimes spuriously);
@@ -173,6 +173,9 @@ fn filter_coarse(tag: &str) -> bool {
     matches!(tag, "ms.poll" | "sm.flag" | "sm.reg.cmp" | "sm.reg.lock" | "sm.reg.store" | "sm.reg.selfwake" | "sm.wake" | "sm.wake.lock" | "sm.wake.retry"
                 | "sm.cancel" | "sm.drop.lock" | "sm.drop.waker" | "sm.sync.lock" | "sm.sync.peek" | "sync.spin")
 }
+/// `mid`: the streams-manager protocol plus the two steps of a publication on the two-phase ring (the in-order publication CAS and
+/// the length measurement that follows it) -- the granularity of the two-phase part of model M8
+fn filter_mid(tag: &str) -> bool { filter_coarse(tag) || tag == "am.p.publish" || tag == "am.p.len" }
 fn filter_fine(tag: &str) -> bool { filter_coarse(tag) || tag.starts_with("am.") || tag.starts_with("fs.") || tag.starts_with("cb.") }
 
 #[derive(Clone, Debug)]
@@ -185,7 +188,7 @@ struct Shared {
 }
 
 #[derive(Clone, Copy, PartialEq)]
-enum Sub { Flow, Cancel, Fine, Susp }
+enum Sub { Flow, Cancel, Fine, Susp, Mid }
 
 fn run_one(kind: &str, sub: Sub, seed: u64, replay: Option<Vec<u8>>) -> (sched::Outcome, Vec<(String, String)>, String, String) {
     let mut rng = Rng::new(seed ^ 0xC0FFEE);
@@ -218,7 +221,8 @@ fn run_one(kind: &str, sub: Sub, seed: u64, replay: Option<Vec<u8>>) -> (sched::
         let mut orng = Rng::new(seed.wrapping_mul(131).wrapping_add(p as u64));
         let (ch, sh, prod_done, susp_fifo) = (ch.clone(), sh.clone(), prod_done.clone(), susp_fifo.clone());
         let kind = kind.to_string();
-        let fine = sub == Sub::Fine || sub == Sub::Susp;
+        let fine = sub == Sub::Fine || sub == Sub::Susp || sub == Sub::Mid;
+        let is_mid = sub == Sub::Mid;
         let no_mov_async = sub == Sub::Cancel;
         let others_done = prod_done.clone();
         let nprod_total = np;
@@ -256,7 +260,8 @@ fn run_one(kind: &str, sub: Sub, seed: u64, replay: Option<Vec<u8>>) -> (sched::
                 let v = (p as u32 + 1) * 1000 + i as u32;
                 // (susp: the other producers use plain sends -- and, where the channel allocates before the await, asynchronous ones too)
                 let c = if is_susp { if zc && kind != "mcrossbeam" { orng.below(9) } else { orng.below(6) } } else { orng.below(10) };
-                let plain_ok = is_susp || susp_fifo.lock().unwrap().is_empty() || kind != "matomic";
+                // (mid: a plain send behind a suspended reservation spins at its publication CAS, a yield point there -- allowed)
+                let plain_ok = is_susp || is_mid || susp_fifo.lock().unwrap().is_empty() || kind != "matomic";
                 if c < 4 && plain_ok {
                     let pos = ctx.call(p, &format!("send {v}"));
                     let ok = ch.send(v);
@@ -307,9 +312,11 @@ fn run_one(kind: &str, sub: Sub, seed: u64, replay: Option<Vec<u8>>) -> (sched::
                     }
                 } else if plain_ok {
                     // reserve + fill + send-reserved (where implemented), else a plain send
-                    let pos = ctx.call(p, &format!("{} {v}", if !ch.has_rsv() { "send" } else { "sendrsv" }));
+                    // (mid: the retry loop of a reserved send has no yield point while another publication is paused in front of it)
+                    let rsv = ch.has_rsv() && !is_mid;
+                    let pos = ctx.call(p, &format!("{} {v}", if !rsv { "send" } else { "sendrsv" }));
                     let _ = pos;
-                    let ok = match ch.reserve_send(v) { Some(ok) => ok, None => ch.send(v) };
+                    let ok = if rsv { match ch.reserve_send(v) { Some(ok) => ok, None => ch.send(v) } } else { ch.send(v) };
                     ctx.ret(if ok { "ok" } else { "full" });
                     sh.lock().unwrap().evs.push(Ev { who: p, what: if ok { "sent".into() } else { "rejected".into() }, v, pos });
                 }
@@ -406,7 +413,7 @@ fn run_one(kind: &str, sub: Sub, seed: u64, replay: Option<Vec<u8>>) -> (sched::
             ctx.block_until(Box::new(move || cd.load(SeqCst) == k));
         }));
     }
-    let mut cfg = Config::new(seed, if sub == Sub::Fine || sub == Sub::Susp { filter_fine } else { filter_coarse });
+    let mut cfg = Config::new(seed, if sub == Sub::Fine || sub == Sub::Susp { filter_fine } else if sub == Sub::Mid { filter_mid } else { filter_coarse });
     cfg.replay = replay;
     cfg.stall_limit = 6000;
     let outcome = sched::run(cfg, bodies);
@@ -486,14 +493,14 @@ fn run_one(kind: &str, sub: Sub, seed: u64, replay: Option<Vec<u8>>) -> (sched::
     std::mem::forget(ch);
     let rule = match kind { "matomic" | "zatomic" => "atomic", "mcrossbeam" => "cb", "marc_atomic" | "mogre_atomic" => "m2", "marc_fullsync" | "mogre_fullsync" => "m1", "marc_crossbeam" => "mcb", _ => "fs" };
     let zc = if kind.starts_with("marc") { false } else { zc };   // Arc payloads live on the heap: no pool capacity
-    let cfg = format!("cfg model=wake N={n} MAX={mx} k={k} rule={rule} zc={} pre={prequeued}", if zc { 1 } else { 0 });
+    let cfg = format!("cfg model=wake N={n} MAX={mx} k={k} rule={rule} zc={} pre={prequeued}{}", if zc { 1 } else { 0 }, if sub == Sub::Mid { " gran=mid" } else { "" });
     (outcome, viol, cfgkey, cfg)
 }
 
 fn main() {
     let a = Args::parse();
     let kind = a.get("kind", "mfullsync");
-    let sub = match a.get("sub", "flow").as_str() { "cancel" => Sub::Cancel, "fine" => Sub::Fine, "susp" => Sub::Susp, _ => Sub::Flow };
+    let sub = match a.get("sub", "flow").as_str() { "cancel" => Sub::Cancel, "fine" => Sub::Fine, "susp" => Sub::Susp, "mid" => Sub::Mid, _ => Sub::Flow };
     let seed0 = a.num("seed", 1);
     let runs = a.num("runs", 100);
     let replay_dir = a.get("replay_dir", "");
@@ -508,7 +515,7 @@ fn main() {
         let (o, viol, cfgkey, cfg) = run_one(&kind, sub, seed, single.clone());
         let nontrivial = o.trace.iter().any(|l| l.ends_with(" pending")) && o.trace.iter().any(|l| l.contains(" sm.wake "));
         rep.add_run(&o.trace, nontrivial, &cfgkey, &format!("{:?}", o.verdict));
-        if sub == Sub::Flow || sub == Sub::Cancel { out.write_run(&format!("{cfg} seed={seed} run={i}"), &o.trace); }
+        if sub == Sub::Flow || sub == Sub::Cancel || sub == Sub::Mid { out.write_run(&format!("{cfg} seed={seed} run={i}"), &o.trace); }
         for (k, d) in viol {
             let header = vec![format!("cmd uni kind={kind} sub={subname} runs=1 seedx={seed} choices={}", choices_str(&o.choices)), format!("violation {k}: {d}"), cfg.clone()];
             let path = write_replay(&replay_dir, &format!("{pid}-uni-{kind}-{subname}-seed{seed}-{k}"), &header, &o.trace);
